@@ -7,8 +7,9 @@ import core
 
 B = 16384
 NAMES = ["a", "a.txt", "a-b", "A", "b", "ab", "a b", "é", "z", "0", "_x", "a.d", "B.bin", "c+d", "k&r", "q=1", "日本",
-         "we\\ird.bin", "x:y", "q's"]      # a backslash is an ordinary character in a POSIX file name
-DIRS = ["a", "d", "a.d", "sub dir", "Z", "é", "a-b", "0", "b\\s"]
+         "we\\ird.bin", "x:y", "q's",      # a backslash is an ordinary character in a POSIX file name
+         "wait....bin", "..hidden", "a..", "x..y"]      # two or more consecutive dots INSIDE a name: ordinary names, not ".."
+DIRS = ["a", "d", "a.d", "sub dir", "Z", "é", "a-b", "0", "b\\s", "disc..2", "..d", "a.."]
 
 
 def boundary_sizes(pl):
@@ -154,8 +155,12 @@ CREATORS = {
 }
 
 
-def create(kind, path, outfile, piece_length, **opts):
-    """run a creator of /repo in process; returns raw bytes of the written metafile"""
+def create(kind, path, outfile, piece_length, reassemble=False, **opts):
+    """run a creator of /repo in process; returns raw bytes of the written metafile.
+       reassemble: the legacy pattern of the library -- construct the creator (which assembles), write a first metafile, then
+       call the PUBLIC assemble() again on the same object and write(): True = with the tree as it is, a callable = it is
+       called between the two (it changes the payload on disk); the bytes returned are those of the LAST write and must
+       satisfy the same judgement as a fresh create of the tree as it is on disk at that moment"""
     core.use_repo_in_process()
     from torrentfile import torrent, utils
     cache = getattr(utils.filelist_total, "cache", None)
@@ -166,6 +171,52 @@ def create(kind, path, outfile, piece_length, **opts):
     kw.update(opts)
     kw.setdefault("progress", 0)
     t = quiet(getattr(torrent, cls), path=path, outfile=outfile, piece_length=piece_length, **kw)
+    if reassemble:
+        quiet(t.write, outfile + ".first")
+        if callable(reassemble):
+            reassemble()
+            if cache is not None:
+                cache.clear()
+        quiet(t.assemble)
     out, _ = quiet(t.write)
     with open(out, "rb") as fd:
         return fd.read()
+
+
+def mutate_tree(rng, tree, pl):
+    """a payload that changed between two assemblies: (new tree, description).  One file grows or shrinks (across a piece
+       boundary when it can), or -- in a directory -- a file is added or removed; at least one file stays"""
+    new = dict(tree)
+    keys = sorted(tree)
+    single = keys == [()]
+    r = rng.random()
+    if not single and r < 0.2:
+        name = next(n for n in ("added.bin", "added2.bin", "zz-added") if (n,) not in tree and not any(k[0] == n for k in tree))
+        new[(name,)] = rng.randbytes(rng.choice([1, pl - 1, pl, pl + 1, 2 * pl + 5]))
+        return new, {"added": name, "size": len(new[(name,)])}
+    if not single and r < 0.4 and len(keys) > 1:
+        k = rng.choice(keys)
+        del new[k]
+        return new, {"removed": "/".join(k), "size": len(tree[k])}
+    k = rng.choice(keys)
+    old = len(tree[k])
+    grow = old == 0 or rng.random() < 0.6
+    if grow:
+        n = old + rng.choice([1, pl - 1, pl, pl + 1, 2 * pl + 7])
+        new[k] = tree[k] + rng.randbytes(n - old)
+    else:
+        lo = 1 if single else 0
+        cands = {lo, max(old // 2, lo), max(old - pl, lo), max(old - 1, lo)} - {old}
+        n = rng.choice(sorted(cands)) if cands else old + 1
+        new[k] = tree[k][:n] if n <= old else tree[k] + bytes(n - old)
+    return new, {"resized": "/".join(k) or "<single>", "from": old, "to": len(new[k])}
+
+
+def rewrite_tree(root, old, new):
+    """bring the payload at root (written from `old`) to the state `new`"""
+    for k in old:
+        if k and k not in new:
+            os.remove(os.path.join(root, *k))
+    changed = {k: v for k, v in new.items() if k not in old or old[k] != v}
+    if changed:
+        write_tree(root, changed)
